@@ -351,40 +351,60 @@ Proof. pose proof (eval_restores_all doc) as H. decompose [and] H. match goal wi
 Lemma restores_all_rel_path l n : restores (eval_rel_path doc l n).
 Proof. pose proof (eval_restores_all doc) as H. decompose [and] H. match goal with Hs : forall e : rel_path, P_rel_path doc e |- _ => apply Hs end. Qed.
 
-(** the operations of a relative path distribute over the start list *)
-Lemma stepops_distr ops : forall l1 l2 c,
-  okv (eval_stepops doc ops (l1 ++ l2)) c =
-  obind (okv (eval_stepops doc ops l1) c) (fun r1 => obind (okv (eval_stepops doc ops l2) c) (fun r2 => Some (r1 ++ r2))).
+(** [flat_map_m] in the option view: defined iff every call is, and then the union of the results *)
+Lemma okv_flat_map_m_spec (f : node -> M (list node)) l c : (forall x, restores (f x)) ->
+  match okv (flat_map_m f l) c with
+  | Some r => (forall n, In n l -> exists rn, okv (f n) c = Some rn) /\
+              (forall x, In x r <-> exists n rn, In n l /\ okv (f n) c = Some rn /\ In x rn)
+  | None => exists n, In n l /\ okv (f n) c = None
+  end.
 Proof.
-  induction ops as [|op s t IH]; intros l1 l2 c.
-  - rewrite !eval_stepops_nil. reflexivity.
-  - rewrite !eval_stepops_cons.
-    set (fr := fun nodes : list node => match op with
-                                       | LpCurrent => Ok nodes
-                                       | LpDescendantOrSelfNode => flat_map_res (descendant_and_self doc) nodes
-                                       end).
-    change (okv (from <- lift (fr (l1 ++ l2));; collected <- flat_map_m (eval_step doc s) from;; eval_stepops doc t collected) c =
-            obind (okv (from <- lift (fr l1);; collected <- flat_map_m (eval_step doc s) from;; eval_stepops doc t collected) c)
-              (fun r1 => obind (okv (from <- lift (fr l2);; collected <- flat_map_m (eval_step doc s) from;; eval_stepops doc t collected) c)
-                 (fun r2 => Some (r1 ++ r2)))).
-    assert (Hfr : fr (l1 ++ l2) = bind (fr l1) (fun a => bind (fr l2) (fun b => Ok (a ++ b)))).
-    { unfold fr. destruct op; [reflexivity|apply flat_map_res_app]. }
-    assert (Hstep : forall x, restores (eval_step doc s x)) by (intros x; apply restores_all_step).
-    assert (Hfm : forall l, restores (flat_map_m (eval_step doc s) l)) by (intros l; apply restores_flat_map_m; exact Hstep).
-    rewrite !okv_bind by apply restores_lift. rewrite !okv_lift, Hfr.
-    destruct (fr l1) as [f1| | |]; cbn [bind obind]; try reflexivity.
-    rewrite (okv_bind (flat_map_m (eval_step doc s) f1)) by apply Hfm.
-    destruct (fr l2) as [f2| | |]; cbn [bind obind].
-    + rewrite (okv_bind (flat_map_m (eval_step doc s) (f1 ++ f2))) by apply Hfm.
-      rewrite (okv_bind (flat_map_m (eval_step doc s) f2)) by apply Hfm.
-      rewrite okv_flat_map_m_app by exact Hstep.
-      destruct (okv (flat_map_m (eval_step doc s) f1) c) as [c1|]; cbn [obind]; [|reflexivity].
-      destruct (okv (flat_map_m (eval_step doc s) f2) c) as [c2|]; cbn [obind].
-      * rewrite IH. reflexivity.
-      * destruct (okv (eval_stepops doc t c1) c); reflexivity.
-    + destruct (obind (okv (flat_map_m (eval_step doc s) f1) c) (fun a => okv (eval_stepops doc t a) c)); reflexivity.
-    + destruct (obind (okv (flat_map_m (eval_step doc s) f1) c) (fun a => okv (eval_stepops doc t a) c)); reflexivity.
-    + destruct (obind (okv (flat_map_m (eval_step doc s) f1) c) (fun a => okv (eval_stepops doc t a) c)); reflexivity.
+  intros Hf. induction l as [|n t IH].
+  - change (okv (flat_map_m f []) c) with (Some (@nil node)). split; [intros n []|].
+    intros x. split; [intros []|intros [n [rn [[] _]]]].
+  - rewrite okv_flat_map_m_cons by exact Hf. destruct (okv (f n) c) as [a|] eqn:Ea; cbn [obind].
+    + destruct (okv (flat_map_m f t) c) as [b|]; cbn [obind].
+      * destruct IH as [IH1 IH2]. split.
+        -- intros m [<-|Hm]; [exists a; exact Ea|apply IH1; exact Hm].
+        -- intros x. rewrite in_app_iff, IH2. split.
+           ++ intros [Hx|[m [rm [Hm [Em Hx]]]]]; [exists n, a; split; [left; reflexivity|split; assumption]|].
+              exists m, rm. split; [right; exact Hm|split; assumption].
+           ++ intros [m [rm [[<-|Hm] [Em Hx]]]].
+              ** left. rewrite Ea in Em. inversion Em; subst. exact Hx.
+              ** right. exists m, rm. split; [exact Hm|split; assumption].
+      * destruct IH as [m [Hm Em]]. exists m. split; [right; exact Hm|exact Em].
+    + exists n. split; [left; reflexivity|exact Ea].
+Qed.
+
+(** a computation on a list against the same computation on two lists that cover it: defined iff
+    both are, and then the same elements *)
+Definition distr (o o1 o2 : option (list node)) : Prop :=
+  match o with
+  | Some r => exists r1 r2, o1 = Some r1 /\ o2 = Some r2 /\ (forall x, In x r <-> In x r1 \/ In x r2)
+  | None => o1 = None \/ o2 = None
+  end.
+
+Lemma flat_map_m_distr (f : node -> M (list node)) l l1 l2 c : (forall x, restores (f x)) ->
+  (forall x, In x l <-> In x l1 \/ In x l2) ->
+  distr (okv (flat_map_m f l) c) (okv (flat_map_m f l1) c) (okv (flat_map_m f l2) c).
+Proof.
+  intros Hf Hs. pose proof (okv_flat_map_m_spec f l c Hf) as H. pose proof (okv_flat_map_m_spec f l1 c Hf) as H1.
+  pose proof (okv_flat_map_m_spec f l2 c Hf) as H2. unfold distr.
+  destruct (okv (flat_map_m f l) c) as [r|].
+  - destruct H as [Ha Hb].
+    destruct (okv (flat_map_m f l1) c) as [r1|].
+    2:{ destruct H1 as [n [Hn En]]. destruct (Ha n (proj2 (Hs n) (or_introl Hn))) as [rn E]. rewrite E in En. discriminate. }
+    destruct (okv (flat_map_m f l2) c) as [r2|].
+    2:{ destruct H2 as [n [Hn En]]. destruct (Ha n (proj2 (Hs n) (or_intror Hn))) as [rn E]. rewrite E in En. discriminate. }
+    exists r1, r2. split; [reflexivity|]. split; [reflexivity|]. destruct H1 as [_ H1b]. destruct H2 as [_ H2b].
+    intros x. rewrite Hb, H1b, H2b. split.
+    + intros [n [rn [Hn H']]]. apply Hs in Hn. destruct Hn as [Hn|Hn]; [left|right]; exists n, rn; (split; [exact Hn|exact H']).
+    + intros [[n [rn [Hn H']]]|[n [rn [Hn H']]]]; exists n, rn; (split; [apply Hs; auto|exact H']).
+  - destruct H as [n [Hn En]]. apply Hs in Hn. destruct Hn as [Hn|Hn].
+    + left. destruct (okv (flat_map_m f l1) c) as [r1|]; [|reflexivity]. destruct H1 as [Ha _].
+      destruct (Ha n Hn) as [rn E]. rewrite E in En. discriminate.
+    + right. destruct (okv (flat_map_m f l2) c) as [r2|]; [|reflexivity]. destruct H2 as [Ha _].
+      destruct (Ha n Hn) as [rn E]. rewrite E in En. discriminate.
 Qed.
 
 Lemma stepops_empty ops c : okv (eval_stepops doc ops []) c = Some [].
@@ -399,21 +419,13 @@ Proof.
   change (okv (flat_map_m (eval_step doc s) []) c) with (Some (@nil node)). cbn [obind]. exact IH.
 Qed.
 
-(** a relative path from a list of start nodes: all first steps, then the operations *)
-Lemma rel_path_split s ops nodes c :
-  okv (flat_map_m (eval_rel_path doc (ERelPath s ops)) nodes) c =
-  obind (okv (flat_map_m (eval_step doc s) nodes) c) (fun coll => okv (eval_stepops doc ops coll) c).
+(** the de-duplication after a step keeps the set of a list of tree nodes *)
+Lemma step_dedup_T l : Forall T l -> (forall x, In x (step_dedup doc l) <-> In x l) /\ Forall T (step_dedup doc l).
 Proof.
-  assert (Hstep : forall x, restores (eval_step doc s x)) by (intros x; apply restores_all_step).
-  assert (Hrp : forall x, restores (eval_rel_path doc (ERelPath s ops) x)) by (intros x; apply restores_all_rel_path).
-  induction nodes as [|n t IH].
-  - change (okv (flat_map_m (eval_step doc s) []) c) with (Some (@nil node)). cbn [obind]. rewrite stepops_empty. reflexivity.
-  - rewrite (okv_flat_map_m_cons _ n t c Hrp), (okv_flat_map_m_cons _ n t c Hstep), IH.
-    rewrite eval_rel_path_eq, okv_bind by apply Hstep.
-    destruct (okv (eval_step doc s n) c) as [a|]; cbn [obind]; [|reflexivity].
-    destruct (okv (flat_map_m (eval_step doc s) t) c) as [b|]; cbn [obind].
-    + rewrite stepops_distr. destruct (okv (eval_stepops doc ops a) c); reflexivity.
-    + destruct (okv (eval_stepops doc ops a) c); reflexivity.
+  intros Ht.
+  assert (H : forall x, In x (step_dedup doc l) <-> In x l).
+  { intros x. apply step_dedup_in. apply (good_key_inj doc Hinv). apply (T_good_list doc Hinv Hshape l Ht). }
+  split; [exact H|]. apply Forall_forall. intros x Hx. rewrite Forall_forall in Ht. apply Ht. apply H. exact Hx.
 Qed.
 
 (** ** a step before its predicates: axis, node test, key sort *)
